@@ -268,7 +268,7 @@ class CGLS(object):
             
     def solve(self):
         # initial state
-        x = self.x0.copy()
+        x = np.array(self.x0, dtype=float) # (a float64 copy: the iterate is updated in place and takes its precision from here)
         if self.explicitA:
             r = self.b - (self.A @ x)
             s = (self.A.T @ r) - self.shift*x
@@ -388,7 +388,7 @@ class PCGLS:
 
     def solve(self):
         # initial state
-        x = self._x0.copy()
+        x = np.array(self._x0, dtype=float) # (a float64 copy, see CGLS)
         r = self._b - self._apply_A(x, 1)
         s = self._apply_Pinv(self._apply_A(r, 2) - self._shift*x, 2)
         p = s.copy()
